@@ -1,14 +1,18 @@
 """C02 — derived copies share no mutable state with the original (do_not_copy excepted)."""
 import c02_gen
+import c02_state
 import inst_check
+import inst_common
 
 ASSUMPTIONS = [
     "theorems: class tables without do_not_copy=True classes and without plain subclasses; callbacks and default factories embed no heap references; the C02 conclusion has an extra disjunct for class-level default objects reached through getattr's class-attribute fallback (instance dict lacking the attribute: not produced by the API)",
     "oracle: structural sharing between result and receiver (canonical object graphs of the implementation) right after every copy-on-write call / deepcopy; this is stronger than visibility of later in-place mutations, which the follow-up operations of every history exercise through the model correspondence",
     "the targeted histories also report oracle bit 32 (an instance holds a class-level default object itself): the oracle chain stops at the first failing operation, and two instances holding the same class-level object is the root cause of the result/receiver sharing that bit 4 would report on a later reset",
-    "oracles evaluated in Python on the same observed graphs: a copy-on-write call that must produce a copy (a real value given, a transform, an element helper, reset) does not hand back the receiver itself; a do_not_copy attribute not addressed by the call is held by identity in the copy (receivers of K2, its spec subclass K3 and its PLAIN subclass K4)",
+    "oracles evaluated in Python on the same observed graphs: a copy-on-write call that must produce a copy (a real value given, a transform, an element helper, reset) does not hand back the receiver itself; a do_not_copy attribute not addressed by the call is held by identity in the copy unless the call invalidates it (receivers of K2, its spec subclass K3 and its PLAIN subclass K4)",
     "plain subclasses (K4 = plain subclass of K2, flavour='plain'): correspondence and oracles only; the theorems keep the own_metadata guard",
     "classes derived from a @spec_class(do_not_copy=True) class (the class-level flag is not inherited; spec / eager spec / plain subclasses, one and two levels, also below a do_not_copy=True class in the middle of a chain, as receiver and nested in a holder): implementation-level probe dnc_parent_probe whose oracle is the property statement evaluated in Python (distinct result, no shared mutable object outside declared do_not_copy attributes and the caller's arguments, in-place follow-ups invisible across); not a Coq evaluation — do_not_copy=True classes are outside the model",
+    "observation: instances are observed through their dictionaries AND through getattr of every managed attribute (inst_common.GETATTR_VIEW): an attribute absent from the instance dictionary whose read falls back to a mutable class-level default object counts as held by the instance, so result / receiver / new instances that merely READ the same class-level list share it (Coq oracle bits 4 and 32, Python-side oracle class-default-shared); tables with literal mutable defaults declared Attr(default=[...], invalidated_by=[...]) and histories aimed at them (gen_case_inv)",
+    "instance state outside the declared attributes (private attributes from __post_init__ / own __init__ / plain-subclass __init__ / late assignment, attrs_skip attributes, spec_property and cached_property caches, overridable-property and Alias overrides, bound methods; spec classes, spec and plain subclasses; as receiver and nested in a holder): implementation-level probe c02_state.private_state_probe whose oracle is the property statement evaluated in Python (identity-disjointness of everything reachable through vars() and getattr of result and receiver except declared do_not_copy attributes and the caller's arguments, then in-place follow-ups on both sides); not a Coq evaluation -- the model has declared attributes only",
     "exempt: objects reachable from arguments of the call, values of do_not_copy attributes (and what they reach), the receiver itself when a no-op form returns it",
     "class grammar as C01 plus identity item preparers on List/Dict of spec instances and more do_not_copy attributes; KeyedList/KeyedSet attributes and do_not_copy=True classes are outside the model",
 ]
@@ -422,22 +426,34 @@ def targeted(chk, cases, bad, extra):
     n = 260 if chk.tier == "quick" else 4000
     n_ops = 7 if chk.tier == "quick" else 10
     mine = [c02_gen.gen_case_c02(chk.rng, n_ops) for _ in range(n)]
+    mine += [c02_gen.gen_case_inv(chk.rng) for _ in range(60 if chk.tier == "quick" else 1500)]
     c02_gen.report(chk, "C02", 4 | 32, mine, extra, "targeted_histories")
     c02_gen.report_python_oracles(chk, "C02", list(cases) + mine, extra, "python_oracles")
     dnc_subclass_probe(chk, extra)
     dnc_family_probe(chk, extra)
     dnc_parent_probe(chk, extra)
     survivor_probe(chk, extra)
+    c02_state.private_state_probe(chk, extra, full=chk.tier != "quick")
     extra["rule"] = extra.get("rule", "") + "; targeted = receiver built from fresh arguments, optional in-place setup, copy-on-write helpers / deepcopy / no-op forms (update_<coll>(MISSING|EMPTY|UNCHANGED), update_<spec attr>(), identity transforms, with_<attr>(sentinel)), then in-place mutation of a result and of the receiver"
 
 
 def main(tier, replay=None):
+    # observe instances through getattr as well: a managed attribute that is absent from the instance
+    # dictionary and read from a mutable class-level object counts as held by the instance
+    inst_common.GETATTR_VIEW = True
     if replay:
         import json
         r = json.load(open(replay))
         probes = {"dnc-subclass": (dnc_subclass_probe, "dnc_subclass_probe"), "dnc-family": (dnc_family_probe, "dnc_family_probe"),
                   "reset-survivor": (survivor_probe, "reset_survivor_probe")}
-        if r.get("kind") in ("receiver-returned", "dnc-duplicated"):
+        if r.get("kind") == "private-state":
+            from common import Check
+            chk, extra = Check("C02", "quick"), {}
+            c02_state.private_state_probe(chk, extra, only=(bool(r.get("eager")), tuple(r.get("base_dnc") or ())), full=True)
+            failing = extra["private_state_probe"]["failing"]
+            print("replay:", "still failing" if failing else "passes now", extra["private_state_probe"])
+            return 1 if failing else 0
+        if r.get("kind") in ("receiver-returned", "dnc-duplicated", "class-default-shared"):
             import inst_common as ic
             case = inst_check.load_replay(replay)
             obs, _ = ic.run_case(case)
